@@ -42,7 +42,7 @@ EPOCHS = [0, 86399, 951782400, 1_700_000_000, 1711846799, 1711846800, 1730595600
 
 
 def budget(tier):
-    return 4000 if tier == "quick" else 200_000
+    return 12000 if tier == "quick" else 200_000
 
 
 def wall(tier):
